@@ -27,10 +27,12 @@ def one(mid):
         except Exception as e:
             return mid, f"transform failed: {e}", {}
         res = {}
+        det = {}
         for p in props:
             code, lines = st._run_check(p, tmp)
             res[p] = code
-        return mid, "ok", res
+            det[p] = lines
+        return mid, "ok", (res, det)
     finally:
         shutil.rmtree(tmp, ignore_errors=True)
 
@@ -40,8 +42,12 @@ with ThreadPoolExecutor(14) as ex:
     for mid, status, res in ex.map(one, mids):
         if status != "ok":
             print(mid, status); continue
+        res, det = res
         miss = [p for p, c in res.items() if c != 1]
         if miss:
             lost += 1
             print(f"{mid:12s} no longer detected after renaming by {miss} (codes {[res[p] for p in miss]}); still by {[p for p,c in res.items() if c==1]}")
+            for p in miss:
+                for l in det.get(p, [])[:3]:
+                    print("      ", p, l[:300])
 print(f"{len(mids)} seeded changes re-checked under renaming; {lost} with a lost detection")
